@@ -442,11 +442,11 @@ func (p c06RecPost) Run(in *bytes.Buffer) (*bytes.Buffer, error) {
 // ---- the environment of one operation under test ----
 
 type c06Env struct {
-	rec *c06Rec
-	rt  *c06RT
-	drv *c06RecDrv
-	cfg *action.Configuration
-	r   *eng.Runner
+	rec         *c06Rec
+	rt          *c06RT
+	drv         *c06RecDrv
+	cfg         *action.Configuration
+	r           *eng.Runner
 	req0, mreq0 int
 }
 
